@@ -100,6 +100,26 @@ func vc30Opens(files map[backend.Handle][]byte, key backend.Handle, password str
 	return repo.SearchKey(context.Background(), password, 5, "") == nil
 }
 
+// vc30Faulty makes one of the operations init uses to probe the location fail with a backend error.
+type vc30Faulty struct {
+	backend.Backend
+	fault string
+}
+
+func (b *vc30Faulty) Stat(ctx context.Context, h backend.Handle) (backend.FileInfo, error) {
+	if b.fault == "stat-config" && h.Type == backend.ConfigFile {
+		return backend.FileInfo{}, fmt.Errorf("injected: stat failed (network)")
+	}
+	return b.Backend.Stat(ctx, h)
+}
+
+func (b *vc30Faulty) List(ctx context.Context, t backend.FileType, fn func(backend.FileInfo) error) error {
+	if (b.fault == "list-key" && t == backend.KeyFile) || (b.fault == "list-snapshot" && t == backend.SnapshotFile) || b.fault == "list-any" {
+		return fmt.Errorf("injected: list failed (network)")
+	}
+	return b.Backend.List(ctx, t, fn)
+}
+
 func TestVerif_C30(t *testing.T) {
 	vSetup(t)
 	res := kit.NewResult("one case = one run of the real init (Repository.Init or `restic init`) on a location prepared with one combination of pre-existing {config, key, snapshot, index, pack} files (real or junk content) x requested version 0..3 x random|given polynomial; distinct by (level, flavour, combination, version, polynomial); non-trivial when the location is not empty or the version is unsupported")
@@ -267,6 +287,78 @@ func TestVerif_C30(t *testing.T) {
 			}
 		}
 	}
+	// ---- the double checks under backend faults: a location that holds a config, a key or a snapshot is
+	// refused also when one of init's own probing operations (Stat config, List keys, List snapshots) fails
+	faultCases := 0
+	for _, flavour := range []string{"real", "junk"} {
+		for mask := 0; mask < 32; mask++ {
+			for _, fault := range []string{"stat-config", "list-key", "list-snapshot", "list-any"} {
+				caseNo++
+				st := kit.NewStore()
+				pre := map[string]bool{}
+				for bit, k := range vc30Kinds {
+					pre[k.name] = mask&(1<<bit) != 0
+					if !pre[k.name] {
+						continue
+					}
+					switch {
+					case flavour == "real":
+						for h, data := range donor {
+							if h.Type == k.t {
+								st.Put(h, data)
+							}
+						}
+					case k.t == backend.ConfigFile:
+						_, body := vc30Junk("config", caseNo)
+						st.Put(backend.Handle{Type: backend.ConfigFile}, body)
+					default:
+						name, body := vc30Junk(k.name, caseNo*7)
+						st.Put(backend.Handle{Type: k.t, Name: name}, body)
+					}
+				}
+				before := st.Files()
+				var ierr error
+				func() {
+					defer func() {
+						if r := recover(); r != nil {
+							ierr = fmt.Errorf("panic: %v", r)
+						}
+					}()
+					repo, err := repository.New(&vc30Faulty{Backend: st.Backend("p1"), fault: fault}, repository.Options{Compression: repository.CompressionAuto})
+					if err != nil {
+						ierr = err
+						return
+					}
+					ierr = repo.Init(ctx, 2, vc30Password, nil)
+				}()
+				after := st.Files()
+				unchanged := true
+				for h, data := range before {
+					if a, there := after[h]; !there || !bytes.Equal(a, data) {
+						unchanged = false
+					}
+				}
+				added := map[string]int{"config": 0, "key": 0, "snapshot": 0, "index": 0, "pack": 0, "lock": 0}
+				for h := range after {
+					if _, was := before[h]; !was {
+						added[vc30KindName(h.Type)]++
+					}
+				}
+				errs := ""
+				if ierr != nil {
+					errs = ierr.Error()
+					if len(errs) > 200 {
+						errs = errs[:200]
+					}
+				}
+				recs.Write(map[string]any{"kind": "initfault", "level": "repo", "flavour": flavour, "pre": pre, "fault": fault, "version": 2, "given": false,
+					"ok": ierr == nil, "errmsg": errs, "unchanged": unchanged, "added": added})
+				res.Case(fmt.Sprintf("fault|%s|%d|%s", flavour, mask, fault), true)
+				faultCases++
+			}
+		}
+	}
+	res.Count("init_under_probe_fault", faultCases)
 	recs.Write(map[string]any{"kind": "ids", "ids": ids})
 	res.Count("init_succeeded", successes)
 	res.Count("init_refused", refusals)
